@@ -224,6 +224,26 @@ def iterator_family():
     return progs
 
 
+def enable_loop_family():
+    """enable_loop on / off / <%page> override x every kind of function the generator emits: template body,
+    top-level def, nested def, anonymous block, call body -- each with its own `% for` reading `loop`."""
+    progs = []
+    noargs = dict(pos=[], kw=[])
+    for el in ("on", "off", "page"):
+        n = iter(range(1, 1000))
+        T = lambda: dict(k="text", t="t%d" % next(n))
+        M = lambda: dict(k="mark", m=next(n), rl=True, w="s")
+        F = lambda: dict(k="for", n=2, sized=True, a=[T(), M()], els=[], has_else=False)
+        D = lambda body, **kw: dict(dict(flags=set(), fm=0, dec=False, dm=0, blk=False, params=[], bsig=[], nested=[], home=0, body=body), **kw)
+        defs = {"e1": D([F()]), "d0": D([F(), dict(k="expr", parts=[dict(k="call", d="e1", via="name", args=noargs)]),
+                                        dict(k="expr", parts=[dict(k="cbody", args=noargs)])], nested=["e1"]),
+                "b1": D([F()], blk=True)}
+        body = [F(), dict(k="expr", parts=[dict(k="call", d="d0", via="name", args=noargs)]), dict(k="block", d="b1"),
+                dict(k="callc", parts=[dict(k="call", d="d0", via="name", args=noargs)], body=[F()], bparams=[], defs=[]), M() if el == "off" else T()]
+        progs.append(dict(defs=defs, incs=[], eh=False, fe=False, top=["d0"], el=el, body=body))
+    return progs
+
+
 def sig_loop_block(p, x):
     return "loop-read-in-block-with-own-for-inside-for:%s" % (x["got"]["res"] if x["clause"] == "res" else x["clause"])
 
@@ -256,6 +276,7 @@ def check(run):
     run.extra["programs"] = len(progs)
     for i in range(0, len(progs), 300):
         rc.check_batch(run, progs[i:i + 300], maxraise, "control-%d" % (i // 300), coverage=True)
+    rc.check_batch(run, enable_loop_family(), 6, "enable-loop")
     fam = iterator_family()
     rc.check_batch(run, fam, 8, "iterators", coverage=True)
     run.extra["iterator_programs"] = len(fam)
